@@ -484,10 +484,14 @@ func run(pkgs map[string]Package, sc *Scenario) (res Result) {
 			return
 		}
 		v := reflect.New(t)
-		if err := json.Unmarshal(sc.Round.JSON, v.Interface()); err != nil {
+		// the caller's buffer is the caller's: after Unmarshal returns it is reused for the next message (a read loop,
+		// a json.Decoder); a type that kept a slice of it instead of a copy changes under the caller's feet
+		buf := append([]byte(nil), sc.Round.JSON...)
+		if err := json.Unmarshal(buf, v.Interface()); err != nil {
 			res.Err = "unmarshal: " + err.Error()
 			return
 		}
+		scribble(buf)
 		b, err := json.Marshal(v.Interface())
 		if err != nil {
 			res.Err = "marshal: " + err.Error()
@@ -547,10 +551,12 @@ func run(pkgs map[string]Package, sc *Scenario) (res Result) {
 		}
 		u := reflect.New(t)
 		if len(sc.Union.Init) > 0 {
-			if err := json.Unmarshal(sc.Union.Init, u.Interface()); err != nil {
+			buf := append([]byte(nil), sc.Union.Init...)
+			if err := json.Unmarshal(buf, u.Interface()); err != nil {
 				res.Err = "init unmarshal: " + err.Error()
 				return
 			}
+			scribble(buf) // the buffer goes back to its owner (see the round scenario)
 		}
 		for _, op := range sc.Union.Ops {
 			if strings.HasPrefix(op.Method, "set:") { // assign a field of the union struct (its own fixed properties)
@@ -658,6 +664,14 @@ func serve(p Package, sc *Scenario, req *http.Request, res *Result) {
 	res.RespHeader = rec.Result().Header
 	res.RespBody = rec.Body.String()
 	res.Trace = t.Events
+}
+
+// scribble overwrites a buffer the way its owner does when the next message arrives.
+func scribble(b []byte) {
+	const next = `{"next":"message","n":[1,2,3]} `
+	for i := range b {
+		b[i] = next[i%len(next)]
+	}
 }
 
 // Call invokes fn with arguments decoded from JSON according to fn's parameter types.
